@@ -27,6 +27,137 @@ def desc_sorted(e, name):
     return t in ('sorted(%s)[::-1]' % name, 'sorted(%s,reverse=True)' % name, 'reversed(sorted(%s))' % name, 'list(reversed(sorted(%s)))' % name)
 
 
+def check_scramble(rep, sc, rel):
+    """scramble_pop_ids: pool by allele total, re-deal with multivariate hypergeometric weights, fold(scramble(unfold)).
+    Expressions are compared after resolving local names through their (single, or loop-local sequential) assignments and
+    after renaming the spectrum being scrambled (self, or a local bound to self.unfold() / self) to S."""
+    from sa.srcmodel import clone
+    stm = [x for x in sc.body if not (isinstance(x, ast.Expr) and isinstance(x.value, ast.Constant))]
+    # the subject: `if <folded>: X = self.unfold()` [else: X = self]
+    subject, flag = None, None
+    for x in stm:
+        if isinstance(x, ast.If) and len(x.body) == 1 and isinstance(x.body[0], ast.Assign) and ast.unparse(x.body[0].value) == 'self.unfold()' and isinstance(x.body[0].targets[0], ast.Name):
+            nm = x.body[0].targets[0].id
+            if (not x.orelse and nm == 'self') or (len(x.orelse) == 1 and isinstance(x.orelse[0], ast.Assign) and ast.unparse(x.orelse[0]) == '%s = self' % nm):
+                subject, flag = nm, ast.unparse(x.test)
+    env0 = {k: v for k, v in single_assignments(sc).items()}
+    flag_ok = subject is not None and (flag == 'self.folded' or (flag in env0 and ast.unparse(env0[flag]) == 'self.folded'))
+
+    def resolve(e, env, depth=0):
+        class T(ast.NodeTransformer):
+            def visit_Name(self, n):
+                if isinstance(n.ctx, ast.Load) and n.id in env and depth < 12 and n.id not in (subject, 'self'):
+                    return resolve(env[n.id], env, depth + 1)
+                if n.id == subject:
+                    return ast.Name(id='S', ctx=ast.Load())
+                return n
+        return T().visit(clone(e))
+
+    def txt(e, env):
+        return ast.unparse(resolve(e, env)).replace(' ', '')
+    TOTAL = ('numpy.sum(S.sample_sizes)', 'S.sample_sizes.sum()', 'sum(S.sample_sizes)')
+    DPE = ('S._total_per_entry().ravel()', 'S._total_per_entry().flatten()', 'S._total_per_entry().flat')
+    loops = [x for x in stm if isinstance(x, ast.For)]
+    if len(loops) != 2 or subject is None:
+        raise AnalysisError('scramble_pop_ids: the pooling and re-dealing loops (or the unfolding of a folded input) were not found')
+    # ---- pooling
+    lp = loops[0]
+    okp = False
+    if isinstance(lp.iter, ast.Call) and dotted(lp.iter.func) == 'zip' and len(lp.iter.args) == 2 and isinstance(lp.target, ast.Tuple) and len(lp.target.elts) == 2 and len(lp.body) == 1:
+        pairs = {txt(a, env0): t_.id for a, t_ in zip(lp.iter.args, lp.target.elts) if isinstance(t_, ast.Name)}
+        dname = next((v for k, v in pairs.items() if k in DPE), None)
+        cname = pairs.get('S.ravel()') or pairs.get('S.flatten()') or pairs.get('S.flat')
+        b = lp.body[0]
+        if dname and cname and isinstance(b, ast.AugAssign) and isinstance(b.op, ast.Add) and isinstance(b.target, ast.Subscript) and isinstance(b.target.value, ast.Name) \
+                and ast.unparse(b.target.slice) == dname and ast.unparse(b.value) == cname:
+            pooled = b.target.value.id
+            init = env0.get(pooled)
+            okp = init is not None and isinstance(init, ast.Call) and dotted(init.func) in ('numpy.zeros', 'np.zeros') and \
+                any(txt(init.args[0], env0) == '%s+1' % t_ for t_ in TOTAL)
+    rep.ob('R-IDX', 'scramble_pop_ids pooling', okp, 'pooled 1-D spectrum indexed by the total derived count of each entry', rel, lp.lineno, what='pooling by allele total')
+    # ---- re-dealing
+    lp2 = loops[1]
+    okw = okr = False
+    if okp and isinstance(lp2.iter, ast.Call) and dotted(lp2.iter.func) == 'zip' and len(lp2.iter.args) == 2 and isinstance(lp2.target, ast.Tuple) and len(lp2.target.elts) == 2:
+        pairs = {txt(a, env0): t_.id for a, t_ in zip(lp2.iter.args, lp2.target.elts) if isinstance(t_, ast.Name)}
+        dname = next((v for k, v in pairs.items() if k in DPE), None)
+        cpe_ok = ('S._counts_per_entry().reshape(numpy.prod(S.shape),S.ndim)', 'S._counts_per_entry().reshape(S.size,S.ndim)', 'S._counts_per_entry().reshape(-1,S.ndim)',
+                  'S._counts_per_entry().reshape((numpy.prod(S.shape),S.ndim))', 'S._counts_per_entry().reshape((S.size,S.ndim))', 'S._counts_per_entry().reshape((-1,S.ndim))')
+        cname = next((v for k, v in pairs.items() if k in cpe_ok), None)
+        env = {k: v for k, v in env0.items() if k != pooled}
+        # counts_per_entry is re-bound from itself in the confirmed form: resolve the chain by hand
+        if cname is None:
+            chain = [x for x in stm if isinstance(x, ast.Assign) and isinstance(x.targets[0], ast.Name)]
+            for a, t_ in zip(lp2.iter.args, lp2.target.elts):
+                if isinstance(a, ast.Name) and isinstance(t_, ast.Name):
+                    defs = [x for x in chain if x.targets[0].id == a.id]
+                    if len(defs) == 2:
+                        e2 = dict(env0)
+                        e2[a.id] = defs[0].value
+                        if txt(defs[1].value, e2) in cpe_ok:
+                            cname = t_.id
+        incs = [x for x in lp2.body if isinstance(x, ast.AugAssign) and isinstance(x.target, ast.Subscript)]
+        if dname and cname and len(incs) == 1 and lp2.body[-1] is incs[0]:
+            for x in lp2.body[:-1]:
+                if isinstance(x, ast.Assign) and len(x.targets) == 1 and isinstance(x.targets[0], ast.Name):
+                    env[x.targets[0].id] = resolve(x.value, env)
+                elif isinstance(x, ast.AugAssign) and isinstance(x.target, ast.Name) and isinstance(x.op, (ast.Sub, ast.Add)) and x.target.id in env:
+                    env[x.target.id] = ast.BinOp(left=env[x.target.id], op=x.op, right=resolve(x.value, env))
+                else:
+                    env = None
+                    break
+            inc = incs[0]
+            if env is not None and isinstance(inc.op, ast.Add) and isinstance(inc.target.value, ast.Name):
+                out = inc.target.value.id
+                oki = ast.unparse(inc.target.slice) == 'tuple(%s)' % cname and env0.get(out) is None
+                v = resolve(inc.value, env)
+                fac = [v.left, v.right] if isinstance(v, ast.BinOp) and isinstance(v.op, ast.Mult) else []
+                pooled_read = [f for f in fac if ast.unparse(f) == '%s[%s]' % (pooled, dname)]
+                weight = [f for f in fac if f not in pooled_read]
+                okr = oki and len(pooled_read) == 1 and len(weight) == 1
+                if okr:
+                    w = weight[0]
+                    wt = ast.unparse(w).replace(' ', '')
+                    ok_forms = ['numpy.exp(sum((_lncomb(t,d)fort,dinzip(S.sample_sizes,%s)))-_lncomb(%s,%s))' % (cname, t_, dname) for t_ in TOTAL]
+                    okw = wt in ok_forms or has_weight(w, cname, dname, TOTAL)
+                # the accumulator starts as zeros of the spectrum's shape
+                accs = [x for x in stm if isinstance(x, ast.Assign) and ast.unparse(x.targets[0]) == out and stm.index(x) < stm.index(lp2)]
+                okr = okr and bool(accs) and txt(accs[-1].value, env0) in ('numpy.zeros(S.shape)', 'np.zeros(S.shape)')
+    rep.ob('R-ALG', 'scramble_pop_ids weight', okw, 'ln prob = sum_a lnC(t_a, d_a) - lnC(T, d)', rel, lp2.lineno, what='multivariate hypergeometric re-dealing weight')
+    rep.ob('R-IDX', 'scramble_pop_ids re-deal', okr, 'every entry receives weight * pooled[total]', rel, lp2.lineno, what='entry (d_1..d_P) gets prob * pooled[d_1+..+d_P]')
+    # ---- folding
+    last = stm[-1]
+    okf = flag_ok
+    if isinstance(last, ast.If) and len(last.body) == 1 and len(last.orelse) == 1 and isinstance(last.body[0], ast.Return) and isinstance(last.orelse[0], ast.Return):
+        t_, a, b = ast.unparse(last.test), ast.unparse(last.body[0].value), ast.unparse(last.orelse[0].value)
+        if t_.startswith('not '):
+            t_, a, b = t_[4:], b, a
+        okf = okf and (t_ == flag or t_ == 'self.folded' and subject != 'self') and a.endswith('.fold()') and a[:-7] == b
+    else:
+        okf = False
+    rep.ob('R-TPL', 'scramble_pop_ids folding', okf, 'folded input: unfold, scramble, fold', rel, sc.lineno, what='folded spectra handled as fold(scramble(unfold))')
+
+
+def has_weight(w, cname, dname, totals):
+    """numpy.exp(A - B) with A = sum(_lncomb(t, d) for t, d in zip(S.sample_sizes, counts)) under renaming of the comprehension variables"""
+    if not (isinstance(w, ast.Call) and dotted(w.func) in ('numpy.exp', 'np.exp', 'math.exp') and len(w.args) == 1):
+        return False
+    e = w.args[0]
+    if not (isinstance(e, ast.BinOp) and isinstance(e.op, ast.Sub)):
+        return False
+    A, B = e.left, e.right
+    okb = isinstance(B, ast.Call) and dotted(B.func) == '_lncomb' and len(B.args) == 2 and ast.unparse(B.args[0]).replace(' ', '') in totals and ast.unparse(B.args[1]) == dname
+    oka = False
+    if isinstance(A, ast.Call) and dotted(A.func) in ('sum', 'numpy.sum', 'math.fsum') and len(A.args) == 1 and isinstance(A.args[0], (ast.GeneratorExp, ast.ListComp)):
+        g = A.args[0]
+        if len(g.generators) == 1 and not g.generators[0].ifs and isinstance(g.generators[0].target, ast.Tuple) and len(g.generators[0].target.elts) == 2:
+            tv, dv = [x.id for x in g.generators[0].target.elts]
+            it = g.generators[0].iter
+            oka = isinstance(it, ast.Call) and dotted(it.func) == 'zip' and [ast.unparse(a) for a in it.args] == ['S.sample_sizes', cname] and \
+                isinstance(g.elt, ast.Call) and dotted(g.elt.func) == '_lncomb' and [ast.unparse(a) for a in g.elt.args] == [tv, dv]
+    return oka and okb
+
+
 def run(rep, prog, tier):
     m = prog.mod(SM)
     rel = m.rel
@@ -161,18 +292,5 @@ def run(rep, prog, tier):
         raise AnalysisError('expected 4 accumulation sites in Misc.combine_pops, found %d' % nb)
     # ---- scramble_pop_ids -------------------------------------------------------------------------------------------------------------
     sc = prog.func(SM, 'Spectrum.scramble_pop_ids')
-    t = ast.unparse(sc)
-    okp = 'for derived, counts in zip(total_per_entry.ravel(), self.ravel())' in t and 'combined[derived] += counts' in t and 'combined = numpy.zeros(total_samp + 1)' in t
-    rep.ob('R-IDX', 'scramble_pop_ids pooling', okp, 'pooled 1-D spectrum indexed by the total derived count of each entry', rel, sc.lineno, what='pooling by allele total')
-    try:
-        T = Translator()
-        okw = 'lnprob = sum((_lncomb(t, d) for t, d in zip(self.sample_sizes, counts)))' in t and 'lnprob -= _lncomb(total_samp, derived)' in t and 'prob = numpy.exp(lnprob)' in t
-    except AlgebraError:
-        okw = False
-    rep.ob('R-ALG', 'scramble_pop_ids weight', okw, 'ln prob = sum_a lnC(t_a, d_a) - lnC(T, d)', rel, sc.lineno, what='multivariate hypergeometric re-dealing weight')
-    okr = 'resamp[tuple(counts)] += prob * combined[derived]' in t and 'for counts, derived in zip(counts_per_entry, total_per_entry.ravel())' in t and \
-        'counts_per_entry = counts_per_entry.reshape(numpy.prod(self.shape), self.ndim)' in t
-    rep.ob('R-IDX', 'scramble_pop_ids re-deal', okr, 'every entry receives weight * pooled[total]', rel, sc.lineno, what='entry (d_1..d_P) gets prob * pooled[d_1+..+d_P]')
-    okf = 'original_folded = self.folded' in t and 'self = self.unfold()' in t and 'return resamp.fold()' in t
-    rep.ob('R-TPL', 'scramble_pop_ids folding', okf, 'folded input: unfold, scramble, fold', rel, sc.lineno, what='folded spectra handled as fold(scramble(unfold))')
+    check_scramble(rep, sc, rel)
     rep.floor('R-IDX', 15)
